@@ -1,0 +1,111 @@
+//go:build verif && !race
+
+package syncx
+
+// Hooks for the verification harness (/verif, property C13): the lock-free ring poolDequeue and the chain
+// of rings poolChain are unexported, so this file exports thin wrappers that call the real methods and
+// read-only accessors of their state. Nothing here is compiled without the build tag `verif`, and no
+// existing line of the package is changed.
+
+import "sync/atomic"
+
+// VerifBlock is the element type stored in the rings (the harness identifies blocks by pointer).
+type VerifBlock = block
+
+// VerifDequeueLimit is the constant the Coq model carries.
+const VerifDequeueLimit = dequeueLimit
+
+// ---------- one ring ----------
+
+// VerifDequeue wraps one real poolDequeue.
+type VerifDequeue struct{ d poolDequeue }
+
+// VerifNewDequeue makes an empty ring of the given size (a power of two) whose head and tail index both
+// start at `start` (the code itself always starts at 0; any pair head == tail is an empty ring, so
+// starting near 2^32 exercises the index wrap-around of the unchanged methods).
+func VerifNewDequeue(size int, start uint32) *VerifDequeue {
+	q := &VerifDequeue{}
+	q.d.vals = make([]eface, size)
+	q.d.headTail = q.d.pack(start, start)
+	return q
+}
+
+func (q *VerifDequeue) PushHead(b *VerifBlock) bool  { return q.d.pushHead(b) }
+func (q *VerifDequeue) PopHead() (*VerifBlock, bool) { return q.d.popHead() }
+func (q *VerifDequeue) PopTail() (*VerifBlock, bool) { return q.d.popTail() }
+
+// VerifRing is a snapshot of one ring: the two halves of headTail and the first word (typ) of every slot,
+// nil = free slot, otherwise the block pointer stored by pushHead.
+type VerifRing struct {
+	Head, Tail uint32
+	Slots      []*VerifBlock
+	HasNext    bool // poolChainElt.next != nil (chain snapshots only)
+	HasPrev    bool // poolChainElt.prev != nil (chain snapshots only)
+}
+
+func snapRing(d *poolDequeue) VerifRing {
+	h, t := d.unpack(atomic.LoadUint64(&d.headTail))
+	r := VerifRing{Head: h, Tail: t, Slots: make([]*VerifBlock, len(d.vals))}
+	for i := range d.vals {
+		r.Slots[i] = (*VerifBlock)(atomic.LoadPointer(&d.vals[i].typ))
+	}
+	return r
+}
+
+// Snapshot reads head, tail and the slots. Exact only while no other goroutine uses the ring.
+func (q *VerifDequeue) Snapshot() VerifRing { return snapRing(&q.d) }
+
+// ---------- the chain of rings ----------
+
+// VerifChain wraps one real poolChain.
+type VerifChain struct{ c poolChain }
+
+// VerifNewChain returns the zero poolChain (what a poolLocal holds before its first pushHead).
+func VerifNewChain() *VerifChain { return &VerifChain{} }
+
+// VerifNewChainAt returns a chain in the state poolChain.pushHead's initialisation branch produces (one empty
+// ring of 8 slots that is both head and tail), except that the ring's indexes start at `start`.
+func VerifNewChainAt(start uint32) *VerifChain {
+	q := &VerifChain{}
+	d := new(poolChainElt)
+	d.vals = make([]eface, 8)
+	d.headTail = d.pack(start, start)
+	q.c.head = d
+	storePoolChainElt(&q.c.tail, d)
+	return q
+}
+
+func (q *VerifChain) PushHead(b *VerifBlock)       { q.c.pushHead(b) }
+func (q *VerifChain) PopHead() (*VerifBlock, bool) { return q.c.popHead() }
+func (q *VerifChain) PopTail() (*VerifBlock, bool) { return q.c.popTail() }
+
+// VerifChainSnap is a snapshot of a chain: the size counter and the rings from c.tail following next.
+// HeadIsLast: c.head is the last ring of that walk (or both are nil). BackLen: number of rings reached from
+// c.head following prev (including c.head).
+type VerifChainSnap struct {
+	Size       int32
+	Rings      []VerifRing
+	HeadIsLast bool
+	BackLen    int
+}
+
+// Snapshot walks the chain. Exact only while no other goroutine uses the chain.
+func (q *VerifChain) Snapshot() VerifChainSnap {
+	s := VerifChainSnap{Size: atomic.LoadInt32(&q.c.size)}
+	var last *poolChainElt
+	for d := loadPoolChainElt(&q.c.tail); d != nil; d = loadPoolChainElt(&d.next) {
+		r := snapRing(&d.poolDequeue)
+		r.HasNext = loadPoolChainElt(&d.next) != nil
+		r.HasPrev = loadPoolChainElt(&d.prev) != nil
+		s.Rings = append(s.Rings, r)
+		last = d
+		if len(s.Rings) > 64 {
+			break
+		}
+	}
+	s.HeadIsLast = q.c.head == last
+	for d := q.c.head; d != nil && s.BackLen <= 64; d = loadPoolChainElt(&d.prev) {
+		s.BackLen++
+	}
+	return s
+}
